@@ -21,12 +21,12 @@ impl<'a> vstd::std_specs::ops::DivSpecImpl<u64> for &'a U256 {
     open spec fn div_req(self, rhs: u64) -> bool { true }
     open spec fn div_spec(self, rhs: u64) -> U256 { arbitrary() }
 }
-impl<'a> core::ops::Mul<u64> for &'a U256 {
+impl<'a> ::core::ops::Mul<u64> for &'a U256 {
     type Output = U256;
     #[verifier::external_body]
     fn mul(self, rhs: u64) -> (r: U256) ensures uval(&r) == uval(self) * rhs as nat { unimplemented!() }
 }
-impl<'a> core::ops::Div<u64> for &'a U256 {
+impl<'a> ::core::ops::Div<u64> for &'a U256 {
     type Output = U256;
     #[verifier::external_body]
     fn div(self, rhs: u64) -> (r: U256) ensures rhs > 0 ==> uval(&r) == uval(self) / rhs as nat { unimplemented!() }
